@@ -11,5 +11,12 @@ git apply "$P" 2>/dev/null || git apply --3way "$P" >/dev/null 2>&1 || { echo "M
 cd /verif
 for id in "$@"; do
   out=$(timeout -s TERM -k 10 900 bin/check $id --tier quick --no-evidence ${EXTRA:-} 2>&1); rc=$?
-  echo "MUTANT $N check=$id rc=$rc :: $(echo "$out" | grep -m1 '^VIOLATION' ) $(echo "$out" | grep -A1 -m1 '^VIOLATION' | tail -1 | cut -c1-160)"
+  rp=$(echo "$out" | grep -m1 '^VIOLATION property' | sed 's/.*replay=//')
+  rstat="-"
+  if [ -n "$rp" ]; then
+    # the replay file must reproduce the violation, with the same trace digest, in a fresh process
+    rout=$(timeout 600 bin/check $id --replay "$rp" 2>&1); rrc=$?
+    if [ $rrc -eq 1 ] && ! echo "$rout" | grep -q "digest differs"; then rstat="replay-ok"; else rstat="REPLAY-BAD(rc=$rrc)"; fi
+  fi
+  echo "MUTANT $N check=$id rc=$rc $rstat :: $(echo "$out" | grep -m1 '^VIOLATION' ) $(echo "$out" | grep -A1 -m1 '^VIOLATION' | tail -1 | cut -c1-160)"
 done
